@@ -426,7 +426,15 @@ func runScript(c Case) (out Out) {
 			if os.Getenv("VERIF_C15_DEBUG") != "" {
 				fmt.Fprintf(os.Stderr, "case %d %v: %v\n", c.ID, op, err)
 			}
-			out.Res = append(out.Res, "err")
+			// "nonode": the dispatcher had no node for a key — kv.ErrNoRedisNode, the errNotFound handed to
+			// cache.New, or a batch of them
+			msg := err.Error()
+			if errors.Is(err, kv.ErrNoRedisNode) || errors.Is(err, errNF) || strings.Contains(msg, kv.ErrNoRedisNode.Error()) ||
+				(strings.Contains(msg, "key \"") && strings.Contains(msg, "not found")) {
+				out.Res = append(out.Res, "nonode")
+			} else {
+				out.Res = append(out.Res, "err")
+			}
 		} else {
 			out.Res = append(out.Res, "ok")
 		}
